@@ -780,6 +780,9 @@ class Emitter:
             L.append("\tcase %d:" % i)
             if op[0] == "stop":
                 L.append("\t\tvf_W(c, k, 1); return 1;")
+            elif op[0] == "soft":
+                # the same stream goes on after having reported end of input (see pack())
+                L.append("\t\tvf_W(c, k, 0); return 0;")
             elif op[0] == "next":
                 L.append("\t\tvf_W(c, k, 0); vf_rewind(c, %d);" % op[1])
                 if fl.nr:
@@ -982,6 +985,21 @@ def pack(case, sched=None, flags=0, alloc_fail_at=0, read_faults=(), bufsize=0):
     for s in sched:
         b.append(struct.pack("<I", s))
     srcs = case["sources"]
+    if any(op[0] == "soft" for op in case.get("wrap", [])):
+        # yywrap op ("soft", j): the stream that has just ended goes on with the bytes of
+        # source j (the model sees two sources, the scanner one that reports end of input in
+        # the middle)
+        srcs = [bytes(x) for x in srcs]
+        read_faults = list(read_faults)
+        cur = 0
+        for op in case["wrap"]:
+            if op[0] == "soft":
+                read_faults.append((cur, len(srcs[cur]), 0xFFFF))
+                srcs[cur] = srcs[cur] + bytes(case["sources"][op[1]])
+            elif op[0] == "next":
+                cur = op[1]
+            else:
+                break
     b.append(struct.pack("<I", len(srcs)))
     for s in srcs:
         b.append(struct.pack("<I", len(s)) + bytes(s))
